@@ -216,7 +216,7 @@ pub fn c05_bfs_predecessors_n4() {
 }
 
 // BfsPred::shortest_path over every digraph on 4 vertices x every source set x every target predicate.
-// @verif prop=C05 tier=thorough fl=f2 role=bfs-shortest-path/array t=3600 mem=30
+// @verif prop=C05 tier=exp fl=f2 role=bfs-shortest-path/array t=3600 mem=30
 #[cfg_attr(kani, kani::proof)]
 #[cfg_attr(kani, kani::unwind(7))]
 pub fn c05_bfs_shortest_path_n4() {
@@ -232,7 +232,7 @@ pub fn c05_bfs_shortest_path_n3() {
 }
 
 // BfsPred::cycles over every digraph on 3 vertices, every single source.
-// @verif prop=C05 tier=thorough fl=f2 role=bfs-cycles/array t=3600 mem=30
+// @verif prop=C05 tier=exp fl=f2 role=bfs-cycles/array t=3600 mem=30
 #[cfg_attr(kani, kani::proof)]
 #[cfg_attr(kani, kani::unwind(6))]
 pub fn c05_bfs_cycles_n3() {
